@@ -15,9 +15,10 @@ Three sub-checks, all by exhaustive enumeration on the real code:
                iteration t is the letter the optimiser moves to; only consumed answers
                are branched on). Oracle: reference simulation of the documented loop.
 ``minibatch``  optim_flat with batch_size on a model whose gradient decodes batch
-               membership exactly (identity design matrix); K iterations; batches must be
-               disjoint, of the right size, consistently indexed over all observed
-               variables, must change between iterations and must cover every
+               membership exactly (identity design matrix), without and with a separate
+               validation model (other data, other n); K iterations; batches must be
+               disjoint, of the right size, cut from the TRAINING data and consistently
+               indexed over all observed variables, must change between iterations and must cover every
                observation.
 """
 
@@ -87,7 +88,8 @@ def bounds(tier):
             "sequence_sweep": {"max_iter": 6 if q else 7, "patience": [1, 2, 3], "tolerances": OPT_TOLS[tier], "initial_letters": [1] if q else [0, 1, 2]},
             "flag_lattice": {"max_iter": [1, 2, 4] if q else [1, 2, 3, 5], "patience": [1, 3] if q else [1, 2, 3], "flags": "restore x prune x save_position_history x validation{none,same_n,diff_n}"},
         },
-        "minibatch": {"n": [4, 5, 7], "batch_size": [2, 3], "seeds_per_run": 5, "iterations": 20 if q else 30},
+        "minibatch": {"n": [4, 5, 7], "batch_size": [2, 3], "seeds_per_run": 5, "iterations": 20 if q else 30,
+                      "validation_model": "seeds 0-2 none; seed 3 separate model with n-1, seed 4 with n+2 observations and different data"},
     }
 
 
@@ -287,6 +289,26 @@ def onehot_model(n):
     coef = lsl.param(jnp.zeros(n, jnp.float32), name="coef")
     mu = lsl.Var(lsl.Calc(jnp.dot, x, coef), name="mu")
     y = lsl.obs(jnp.arange(1, n + 1, dtype=jnp.float32), lsl.Dist(tfd.Normal, loc=mu, scale=1.0), name="y")
+    return lsl.GraphBuilder().add(y).build_model()
+
+
+def onehot_validation_model(n, n_val):
+    """Validation model for onehot_model(n) with DIFFERENT data and sample size: row i of
+    X is e_{(n-1-i) mod n} and y_i = 20 - i. If the mini-batches were cut from these data
+    the decoded gradients would not be proportional to the training responses."""
+    import jax.numpy as jnp
+    import numpy as np
+    import tensorflow_probability.substrates.jax.distributions as tfd
+
+    import liesel.model as lsl
+
+    X = np.zeros((n_val, n), dtype=np.float32)
+    for i in range(n_val):
+        X[i, (n - 1 - i) % n] = 1.0
+    x = lsl.obs(jnp.asarray(X), name="x")
+    coef = lsl.param(jnp.zeros(n, jnp.float32), name="coef")
+    mu = lsl.Var(lsl.Calc(jnp.dot, x, coef), name="mu")
+    y = lsl.obs(jnp.asarray(20.0 - np.arange(n_val), dtype=jnp.float32), lsl.Dist(tfd.Normal, loc=mu, scale=1.0), name="y")
     return lsl.GraphBuilder().add(y).build_model()
 
 
@@ -647,20 +669,25 @@ def run_minibatch(res: core.UnitResult, u: dict):
     n, bs, K = u["n"], u["bs"], u["K"]
     B = n // bs
     first: set[str] = set()
-    for seed in u["seeds"]:
+    # seeds 0-2: no validation model; seed 3 / 4: a separate validation model with other
+    # data and a smaller / larger sample size (the batches must still be cut from the
+    # TRAINING data)
+    plan = [(sd, None) for sd in u["seeds"][:3]] + [(u["seeds"][3], n - 1), (u["seeds"][4], n + 2)]
+    for seed, n_val in plan:
         sink: list = []
         model = onehot_model(n)
+        mval = None if n_val is None else onehot_validation_model(n, n_val)
         r = optim_flat(model, ["coef"], optimizer=recording_optimizer(sink), stopper=Stopper(max_iter=K + 1, patience=K + 1),
-                       batch_size=bs, batch_seed=seed, progress_bar=False)
+                       batch_size=bs, batch_seed=seed, model_validation=mval, progress_bar=False)
         jax.effects_barrier()
         res.executions += 1
-        case = {"n": n, "batch_size": bs, "batch_seed": seed, "iterations": K}
+        case = {"n": n, "batch_size": bs, "batch_seed": seed, "iterations": K, "validation_model": None if n_val is None else {"n_validation": n_val, "X": "row i = e_((n-1-i) mod n)", "y": "20 - i"}}
 
         def bad(sig, msg, extra=None):
             if sig in first:
                 return
             first.add(sig)
-            res.violation("minibatch", sig, {**case, **(extra or {})}, msg + f" [n={n} batch_size={bs} batch_seed={seed} K={K}]")
+            res.violation("minibatch", sig, {**case, **(extra or {})}, msg + f" [n={n} batch_size={bs} batch_seed={seed} K={K} validation model: {'none' if n_val is None else f'separate, n_validation={n_val}'}]")
 
         if int(r.iteration) != K:
             raise RuntimeError(f"minibatch run ended at iteration {int(r.iteration)} instead of {K}")
@@ -681,7 +708,7 @@ def run_minibatch(res: core.UnitResult, u: dict):
                 # consistency of x- and y-indexing: g_j / y_j is the same constant c < 0
                 ratios = [g[j] / y[j] for j in members]
                 if members and (max(ratios) - min(ratios) > 1e-4 * abs(ratios[0]) or ratios[0] >= 0):
-                    bad("inconsistent-batching", f"iteration {it + 1} batch {b}: gradient {g.tolist()} is not -(c)*y restricted to a batch", {"iteration": it + 1, "gradient": g.tolist()})
+                    bad("inconsistent-batching", f"iteration {it + 1} batch {b}: gradient {g.tolist()} is not -(c)*y_train restricted to a batch of training observations (y_train = {y.tolist()})", {"iteration": it + 1, "gradient": g.tolist()})
                 if len(members) != bs:
                     bad("batch-size", f"iteration {it + 1} batch {b} has members {members}, expected {bs} distinct observations", {"iteration": it + 1, "members": members})
                 batches.append(tuple(members))
@@ -702,7 +729,7 @@ def run_minibatch(res: core.UnitResult, u: dict):
         elif never:
             bad("observation-never-used", f"observations {never} occur in no batch of {K} iterations", {"never_used": never})
         res.states += distinct
-        res.outcome("minibatch", n, bs, "distinct-partitions", min(distinct_sets, 3), "covered" if not never else "uncovered")
+        res.outcome("minibatch", n, bs, "val" if n_val is not None else "noval", "distinct-partitions", min(distinct_sets, 3), "covered" if not never else "uncovered")
         res.note([seed, partitions[:3], distinct_sets, never])
         res.sample({"kind": "minibatch", **case, "first_partitions": partitions[:3], "distinct_partitions": distinct_sets}, limit=1)
     _drop_caches()
